@@ -1345,6 +1345,9 @@ func (f *frame) bindLocalsI(env *Env, at *ssa.BasicBlock, phis map[*ssa.Phi]Val,
 						if id, ok := dr.Expr.(*ast.Ident); ok {
 							if vobj, isVar := dr.Object().(*types.Var); isVar && !vobj.IsField() {
 								pendingT[id.Name] = dr.X.Type()
+								if a := typeAlias(id.Name, dr.X.Type()); a != "" {
+									pendingT[a] = dr.X.Type()
+								}
 							}
 						}
 					}
@@ -1381,6 +1384,9 @@ func (f *frame) bindLocalsI(env *Env, at *ssa.BasicBlock, phis map[*ssa.Phi]Val,
 				if _, isC := dr.X.(*ssa.Const); !isC {
 					if body != nil && body[b] && !dr.IsAddr {
 						pendingT[id.Name] = dr.X.Type() // defined on another path of the iteration
+						if a := typeAlias(id.Name, dr.X.Type()); a != "" {
+							pendingT[a] = dr.X.Type()
+						}
 					}
 					continue
 				}
@@ -1388,6 +1394,20 @@ func (f *frame) bindLocalsI(env *Env, at *ssa.BasicBlock, phis map[*ssa.Phi]Val,
 			c, had := best[id.Name]
 			if !had || dd > c.depth || (dd == c.depth && i > c.idx) {
 				best[id.Name] = cand{dr.X, dr.IsAddr, dd, i}
+			}
+			// several variables of one name (one per switch case, say) are told apart by their type: idx_AttachmentIndex
+			if !dr.IsAddr {
+				t := dr.X.Type()
+				if p, ok := t.(*types.Pointer); ok {
+					t = p.Elem()
+				}
+				if n, ok := t.(*types.Named); ok {
+					alias := id.Name + "_" + n.Obj().Name()
+					c2, had2 := best[alias]
+					if !had2 || dd > c2.depth || (dd == c2.depth && i > c2.idx) {
+						best[alias] = cand{dr.X, false, dd, i}
+					}
+				}
 			}
 		}
 	}
@@ -1488,4 +1508,15 @@ func resultEnv(env *Env, sig *types.Signature, rets []Val) {
 func isErrorType(t types.Type) bool {
 	n, ok := t.(*types.Named)
 	return ok && n.Obj().Name() == "error" && n.Obj().Pkg() == nil
+}
+
+// typeAlias: name_TypeName for a variable of (pointer to) a named type.
+func typeAlias(name string, t types.Type) string {
+	if p, ok := t.(*types.Pointer); ok {
+		t = p.Elem()
+	}
+	if n, ok := t.(*types.Named); ok {
+		return name + "_" + n.Obj().Name()
+	}
+	return ""
 }
